@@ -113,6 +113,12 @@ def run(ctx):
               'wit': [[bytes([b]), bytes([b])]], 'locktime': 0}
         raws.append(('boundary', txgen.ser_tx(tx), False))
 
+    # segwit-serialised coinbase transactions: the witness reserved value is arbitrary 32 bytes (and may look like a script)
+    for rv in (b'\0' * 32, b'\x51' * 32, b'\xff' * 32, bytes(range(32)), b'witness reserved value, 32 bytes', bytes(rng.randrange(256) for _ in range(32)),
+               b'\x20' + bytes(31), b'\x00\x14' + bytes(30)):
+        cbtx = {'version': 2, 'ins': [(b'\0' * 32, 0xffffffff, b'\x03\x01\x02\x03' + bytes(rng.randrange(256) for _ in range(rng.randrange(0, 20))), 0xffffffff)],
+                'outs': [(625000000, b'\x00\x14' + b'\x77' * 20), (0, b'\x6a\x24\xaa\x21\xa9\xed' + bytes(32))], 'wit': [[rv]], 'locktime': 0}
+        raws.append(('coinbase-segwit', txgen.ser_tx(cbtx), False))
     # boundary: CompactSize thresholds of every length prefix (script, scriptSig, witness item; thorough: counts)
     for ln in (252, 253, 254, 65534, 65535, 65536):
         nop = b'\x61' * ln
@@ -163,7 +169,7 @@ def run_blocks(ctx, chk):
         cb = txgen.rand_tx_clean(rng, standard_only=False)
         cb['ins'] = [(b'\0' * 32, 0xffffffff, b'\x03' + txgen.rbytes(rng, 3) + txgen.rbytes(rng, rng.randint(0, 20)), 0xffffffff)]
         if cb['wit'] is not None:
-            cb['wit'] = [[b'\0' * 32]]
+            cb['wit'] = [[rng.choice([b'\0' * 32, b'\x51' * 32, bytes(rng.randrange(256) for _ in range(32)), b'witness reserved value, 32 bytes'])]]
         txs = [cb] + [txgen.rand_tx_clean(rng, standard_only=rng.random() < 0.5) for _ in range(ntx - 1)]
         exp = rng.choice([0x1d, 0x1c, 0x17, 0x20, 0x04, 0x03])
         bits = (exp << 24) | rng.randrange(1, 2**23)
